@@ -14,7 +14,7 @@ TInit ==
   /\ t0 \in Starts /\ l = t0
   /\ prog = [p \in Procs |-> <<>>] /\ cur = [p \in Procs |-> NoCall]
   /\ lock = "free" /\ outClosed = FALSE /\ inClosed = FALSE /\ wire = <<>>
-  /\ rets = [p \in Procs |-> <<>>] /\ peer = <<>> /\ avail = 0 /\ failArmed = FALSE
+  /\ rets = [p \in Procs |-> <<>>] /\ peer = <<>> /\ avail = 0 /\ failArmed = FALSE /\ dl = FALSE
   /\ sv = [phase |-> "init", reason |-> "none", owner |-> "none", pending |-> 0]
 
 ProgOf(r, p) == IF \E i \in 1..Len(r.progs) : r.progs[i].p = p
@@ -26,7 +26,7 @@ TrReset ==
   /\ peer' = Trace[l].script \o <<"eof">>
   /\ sv' = [sv EXCEPT !.phase = "idle"]
   /\ failArmed' = Trace[l].failclose
-  /\ UNCHANGED <<cur, lock, outClosed, inClosed, wire, rets, avail>>
+  /\ UNCHANGED <<cur, lock, outClosed, inClosed, wire, rets, avail, dl>>
 
 TrCall == IsEv("call") /\ Begin(Trace[l].p) /\ cur'[Trace[l].p].k = Trace[l].k
 TrRet ==
@@ -43,6 +43,7 @@ TrWrite ==
      \/ w = "closefail" /\ CloseWriteFail(p)
      \/ w = "err" /\ ErrWrite(p)
 TrPeer == IsEv("peer") /\ PeerFeed /\ peer[avail'] = Trace[l].item
+TrDeadline == IsEv("deadline") /\ Deadline
 TrHandler == IsEv("handler") /\ ServeItem(sv.owner) /\ Head(peer) = Trace[l].item
 (* hook events: for the serve process they mark the start of the calls Serve issues *)
 HookKind(pt) == CASE pt = "senderr.enter" -> "senderr"
@@ -78,7 +79,7 @@ TrParsed ==
   /\ UNCHANGED vars
 
 Silent ==
-  /\ \/ \E p \in Procs : Acquire(p) \/ CloseInput(p) \/ ServeStart(p) \/ ServeAbort(p)
+  /\ \/ \E p \in Procs : Acquire(p) \/ CloseInput(p) \/ ServeStart(p) \/ ServeAbort(p) \/ ServeDeadline(p)
      \/ \E p \in Procs : TxRefuse(p) \/ TxDone(p) \/ CloseDone(p) \/ Rx(p)   \* end of a call's body
      \/ \E p \in Procs : p = sv.owner /\ cur[p].k \in {"tx", "senderr", "closeinput", "close"} /\ Ret(p) \* calls Serve issued itself
      \/ \E p \in Procs : p = sv.owner /\ ServeItem(p) /\ Head(peer) \in {"close", "streamerr", "eof"}
@@ -89,7 +90,7 @@ Inv == /\ C10_OneCloseTag /\ C10_NothingAfterClose /\ C10_ClosedIffTag /\ C10_Se
 
 TNext ==
   /\ l < EndOf(t0)
-  /\ \/ TrReset \/ TrCall \/ TrRet \/ TrWrite \/ TrPeer \/ TrHandler \/ TrHook \/ TrServeRet
+  /\ \/ TrReset \/ TrCall \/ TrRet \/ TrWrite \/ TrPeer \/ TrDeadline \/ TrHandler \/ TrHook \/ TrServeRet
      \/ TrParsed \/ Silent
   /\ UNCHANGED t0
   /\ Inv'
